@@ -34,6 +34,8 @@ var Sigma = []string{
 	// identifier, other digits, a non-ASCII decimal digit, a fullwidth digit, a superscript, the two letters that
 	// lower-case to ASCII, a line separator and a byte-order mark
 	`""`, "9", "x9", "0", "\u0663", "\uff11", "\u00b2", "\u212a", "\u0130", "\u2028", "\ufeff",
+	// characters some editors count as line breaks, inside a string: U+2029, U+0085, form feed, vertical tab
+	"'x\u2029y'", "'x\u0085\f\vy'", "\ufffd",
 }
 
 // Core is the subset used by quick tiers (one trigger per branch, fewer near-duplicates).
@@ -48,6 +50,7 @@ var Core = []string{
 	"/a/", "/a",
 	"#", "é", "\x00", "\xff", `\`,
 	`""`, "$1", "9", "\u0663", "\u212a", "\ufeff",
+	"\u2028", "'x\u2029y'",
 }
 
 // Separators used when joining lexemes so that line/column arithmetic crosses them.
